@@ -200,6 +200,17 @@ class Ctx:
     def variant_index(self, enum_head, vname):
         """enum_head: text before ::Variant (may include generics)"""
         base = re.sub(r"<.*$", "", enum_head).split("::")[-1].strip()
+        if not base:
+            # `<T as Trait>::path::Enum`: the last path segment outside angle brackets
+            depth, last = 0, 0
+            for i, ch in enumerate(enum_head):
+                if ch == "<":
+                    depth += 1
+                elif ch == ">" and (i == 0 or enum_head[i - 1] != "-"):
+                    depth -= 1
+                elif ch == ":" and depth == 0 and enum_head[i:i + 2] == "::":
+                    last = i + 2
+            base = re.sub(r"<.*$", "", enum_head[last:]).strip()
         for key in (enum_head, base):
             if key in self.enums and vname in self.enums[key]:
                 return self.enums[key].index(vname)
